@@ -99,6 +99,8 @@ def run_batch(check, tier, seed, runs, workers, wall, digests=False, scratch=Non
         for e in r["harness_errors"]:
             herrs.append("worker %d run %s seed %s:\n%s" % (w, e["idx"], e["seed"], e["trace"]))
         agg["n"] += r["n"]
+        if r.get("slowest") and r["slowest"][0] > agg.get("slowest", [0.0])[0]:
+            agg["slowest"] = r["slowest"]
         agg["n_ops"] += r["n_ops"]
         agg["sim_time"] += r["sim_time"]
         agg["n_nontrivial"] += r["n_nontrivial"]
@@ -271,6 +273,12 @@ def cmd_check(check, tier, args):
     new_viol = []
     by_class = {}
     for v in agg["violations"]:
+        # a violating run whose (unminimised) fingerprint already matches an open finding is counted as a hit of that finding without
+        # being minimised again (the committed replay of the finding was re-validated above); everything else is minimised and classified
+        e0 = match_finding(findings, check, v.get("fp"))
+        if e0 is not None:
+            known_hits[e0["id"]] = known_hits.get(e0["id"], 0) + 1
+            continue
         k = (v["case"]["machine"],) + tuple((v["violation"]["property"], v["violation"]["oracle"], v["violation"]["observable"]))
         by_class.setdefault(k + (v.get("tag", ""),), []).append(v)
     n_shrunk = 0
@@ -321,6 +329,8 @@ def cmd_check(check, tier, args):
     print("runs=%d nontrivial-distinct=%d states=%d ops=%d wall=%.1fs (%.0f runs/h) violating-runs=%d new=%d known=%s truncated=%s" % (
         agg["n"], agg["distinct_nontrivial"], agg["states"], agg["n_ops"], wall_total, agg["n"] / max(wall_total, 1e-9) * 3600,
         len(agg["violations"]) + agg["violations_dropped"], len(new_viol), dict(known_hits), agg["truncated"]))
+    if agg.get("slowest"):
+        print("slowest run: %.1fs (run index %d)" % (agg["slowest"][0], agg["slowest"][1]))
     for k, v in sorted(agg["probes"].items()):
         if k.startswith("FAULT-PROBE"):
             print("FAULT-PROBE %s count=%d (report-only: outside every property's quantifier)" % (k[len("FAULT-PROBE_"):], v))
